@@ -1,30 +1,36 @@
-"""Replay templates: scenario programs over the public API of the REAL package, per property (mechanism 2/3 of DESIGN.md section 7).
+"""Replay templates: scenario programs over the public API of the REAL package (mechanism 2/3 of DESIGN.md section 7).
 
-When an obligation fails, every scenario registered for the property is run against the tree under verification; a scenario
-exits 1 iff it observes the property's violation. The first one that does is the failing input (its transcript goes into
-the replay file). None => the VIOLATION line ends with no-failing-input-found."""
+When an obligation fails, the scenarios registered for (a regular expression over) that obligation are run against the tree
+under verification; a scenario exits 1 iff it observes the violation. The first one that does is the failing input (its
+transcript goes into the replay file). None => the VIOLATION line ends with no-failing-input-found."""
+import re
+
 from .registry import replayer, run_native
 
-SCENARIOS = {
-    'C09': ['rp_dispatch_own_parent.py', 'rp_dispatch_child_twice.py', 'rp_lock_inherited.py'],
-    'C14': ['rp_dispatch_reject_children.py'],
-    'C06': ['rp_lock_inherited.py'],
-    'C16': ['rp_exit_with_running_bus.py'],
-    'C15': ['rp_idle_after_fault.py', 'rp_recursion_guard_hang.py'],
-    'C10': ['rp_idle_after_fault.py'],
-    'C03': ['rp_recursion_guard_hang.py'],
-    'C01': ['rp_recursion_guard_hang.py'],
-    'C11': ['rp_recursion_guard_hang.py'],
-}
+# (obligation regex, script)
+SCENARIOS = [
+    (r'EventBus\.dispatch/ensures:(never_own_parent|parent_|no_parent|explicit_parent)', 'rp_dispatch_own_parent.py'),
+    (r'EventBus\.dispatch/ensures:(child_once|only_that_handlers_children|children_only)', 'rp_dispatch_child_twice.py'),
+    (r'EventBus\.dispatch/(raises:.*:(children_unchanged|history_unchanged|queue_unchanged)|ensures:enqueued)', 'rp_dispatch_reject_children.py'),
+    (r'EventBus\._run_loop/callsite:step/requires:root_context|ReentrantLock\.|EventBus\.step/exit:lock_released', 'rp_lock_inherited.py'),
+    (r'EventBus\._get_next_event/raises:cancel_not_swallowed|EventBus\._run_loop/callsite:step/requires:not_after_cancel', 'rp_exit_with_running_bus.py'),
+    (r'EventBus\.step/.*task_done|EventBus\.step/inv.*queue_accounting', 'rp_idle_after_fault.py'),
+    (r'EventBus\.process_event/raises:only_declared', 'rp_recursion_guard_hang.py'),
+    (r'EventBus\._execute_handlers/raises:cancellederror_only_if_task_cancelled', 'rp_handler_raises_cancelled.py'),
+    (r'EventBus\.process_event/callsite:event_result_update\\(pending\\)', 'rp_forward_completion_regress.py'),
+    (r'EventResult\.update/ensures:typed_', 'rp_result_type_union.py'),
+]
 
 
 @replayer(r'.')
 def scenario_sweep(pid, ob, spec):
     runs = []
-    for script in SCENARIOS.get(pid, []):
+    for pat, script in SCENARIOS:
+        if not re.search(pat, ob.name):
+            continue
         r = run_native(script, [])
         runs.append(r)
         if r.get('confirmed'):
             return {'confirmed': True, 'mechanism': 'scenario:' + script, 'transcript': r}
     return {'confirmed': False, 'mechanism': 'scenario sweep', 'scenarios_run': [(r['script'], r['exit']) for r in runs],
-            'note': 'no registered scenario of this property reproduces the failed obligation on this tree; the verifier model and path signature are attached'}
+            'note': 'no registered scenario reproduces this failed obligation on this tree; the verifier model and path signature are attached'}
